@@ -4,7 +4,7 @@
    The same module emits the cases as scripts (ACTION_CONSTRAINT Emit), one JSON object per case:
      Mode = "c05": every (transaction type, context) row of Authz!Table x the access sets
                    {}, ALL, every reading Req of the row, ALL \ Req, ALL \ {p}, Req \ {p}, {p} for p in Req,
-                   and {p}, ALL \ {p} for two seed-chosen p (quick) or all 64 p (thorough)
+                   and {p}, ALL \ {p} for one seed-chosen p (quick) or all 64 p (thorough)
      Mode = "c06": creator/requested pairs (ALL\{i},{i}), ({i},{i}), ({i,14},{i}), ({i,14},{j}), ({i,14},{i,j})
                    for all i and the sampled (quick) or all (thorough) j, on both creation requests;
                    disconnect requests x ban option x target access sets
@@ -25,7 +25,7 @@ On(m) == Mode = "all" \/ Mode = m
 Rand(n) == {i \in Priv : (((n + 3) * (i + 7) * 2654 + n * 97 + i * 1009 + Seed * 31) % 4093) % 2 = 1}   \* (< 2^31 for n <= 10000)
 
 (* ---- C05 cases ------------------------------------------------------------ *)
-Pick(r) == {(Seed * 7 + r.t + j * 11) % 64 : j \in 1..2}
+Pick(r) == {(Seed * 7 + r.t + j * 11) % 64 : j \in 1..1}
 Readings(r) == {r.req} \cup r.alts
 Mention(r) == UNION Readings(r)
 AccSets(r) ==
@@ -101,8 +101,13 @@ MultiSteps ==
     via |-> v, want |-> {p}] :
      ed \in {349, 353}, nk \in MultiNK, p \in RevBits \ {14}, v \in {349, 350}}
 
+(* an account editor opens / lists / re-saves an account it does not dominate *)
+OpenSets == {{i} : i \in Priv} \cup {Priv, Defined, {}, Priv \ {16}, Priv \ {17}, Defined \ {2}}
+            \cup {Rand(n + 50) : n \in 1..(IF Thorough /\ Mode # "all" THEN 300 ELSE 10)}
+OpenSteps == {[op |-> "open", S |-> S, racc |-> ra] : S \in OpenSets, ra \in {{16}, {16, 17}, {16, 17, 2, 9, 40}}}
+
 FirstSteps == (IF On("c05") THEN HandleSteps ELSE {}) \cup (IF On("c06") THEN CreateSteps \cup KickSteps \cup MultiSteps ELSE {})
-              \cup (IF On("c16") THEN RtSteps \cup UpdSteps ELSE {})
+              \cup (IF On("c16") THEN RtSteps \cup UpdSteps \cup OpenSteps ELSE {})
 
 (* second step (model check only): the account just created creates another one *)
 ChainSteps ==
@@ -121,7 +126,7 @@ Spec == MCInit /\ [][Next]_mcvars
 (* ---- invariants of the instance -------------------------------------------- *)
 TablesOK == ReqMatchesGov /\ KeysUnique /\ Cardinality(Types) = 43
             /\ Cardinality(AllNames) = 40 /\ \A i \in Defined : Num(Name[i]) = i
-GuardOK == \A i \in DOMAIN hist : hist[i].op \in {"handle", "create", "kick", "rt", "upd", "multi"} /\ Guard(hist[i])
+GuardOK == \A i \in DOMAIN hist : hist[i].op \in {"handle", "create", "kick", "rt", "upd", "multi", "open"} /\ Guard(hist[i])
 (* chains: what the second account holds, the first creator held *)
 NoChainAmplification ==
   ("newacct2" \in DOMAIN accts) => accts["newacct2"] \subseteq cap["newacct"]
@@ -129,6 +134,8 @@ NoChainAmplification ==
 (* ---- script emission --------------------------------------------------------- *)
 Script(s) == IF s.op = "rt"
                THEN [op |-> "rt", S |-> s.S, bytes |-> ToBytes(s.S), names |-> Save(s.S), allnames |-> AllNames]
+             ELSE IF s.op = "open"
+               THEN [op |-> "open", S |-> s.S, racc |-> s.racc, bytes |-> ToBytes(s.S), rbytes |-> ToBytes(s.racc)]
              ELSE IF s.op = "upd"
                THEN [op |-> "upd", via |-> s.via, S |-> s.S, old |-> s.old, bytes |-> ToBytes(s.S)]
                ELSE s
